@@ -157,11 +157,11 @@ def gen_history(rnd, nops, p_reject=0.12, p_boundary=0.15, flush_every=None, rea
             # an operation the specification refuses
             k = rnd.randrange(7 if index_limit_rejects else 5)
             stats["rejected"] += 1
-            if partial_batches and max_batch >= 3 and last is not None and rnd.random() < 0.25:
+            if partial_batches and max_batch >= 3 and last is not None and rnd.random() < 0.3:
                 # a batch whose first entries are accepted and whose last one is refused (gap, or
                 # id not above the one before): the accepted ones stay, the refused one leaves no trace
                 term = max(last[0], s.term)
-                n_ok = rnd.randint(1, max_batch - 1)
+                n_ok = rnd.randint(0 if rnd.random() < 0.3 else 1, max_batch - 1)
                 es = []
                 for j in range(n_ok):
                     pl = rand_payload(rnd)
@@ -169,6 +169,13 @@ def gen_history(rnd, nops, p_reject=0.12, p_boundary=0.15, flush_every=None, rea
                     es.append("%d %d %s" % (term, last[1] + 1 + j, hx(pl)))
                 bad_idx = last[1] + 1 + n_ok + rnd.choice([1, 2]) if rnd.random() < 0.6 else last[1] + n_ok
                 es.append("%d %d %s" % (term, bad_idx, hx(rand_payload(rnd))))
+                if rnd.random() < 0.45:
+                    # ... and the refused entry is NOT the last one: the entries behind it would be
+                    # acceptable had the refused one not been there (a re-delivered entry in front of
+                    # new ones, an out-of-order batch); the batch stops at the refusal all the same
+                    for j in range(rnd.randint(1, 2)):
+                        es.append("%d %d %s" % (term, last[1] + 1 + n_ok + j, hx(rand_payload(rnd))))
+                    stats["refused_in_mid_batch"] = stats.get("refused_in_mid_batch", 0) + 1
                 ops.append("A " + " ".join(es))
                 stats["appends"] += n_ok
                 obs()
